@@ -663,6 +663,22 @@ mutant('C07', 'c07-run-reversed', 'usim/__init__.py',
        "                for activity in _activities:\n                    scope.do(activity)",
        "                for activity in reversed(_activities):\n                    scope.do(activity)",
        'R', 'roots start in reverse order')
+mutant('C07', 'c07-run-volatile-roots', 'usim/__init__.py',
+       "                for activity in _activities:\n                    scope.do(activity)",
+       "                for activity in _activities:\n                    scope.do(activity, volatile=True)",
+       'R', 'the simulation ends at once: roots are volatile')
+mutant('C07', 'c07-run-till-swapped-args', 'usim/__init__.py',
+       "        activities = root(_activities=activities, _till=till),",
+       "        activities = root(_activities=activities, _till=start),",
+       'R', 'the simulation stops at the start time')
+mutant('C07', 'c07-run-keeps-activities', 'usim/__init__.py',
+       "        activities = root(_activities=activities, _till=till),",
+       "        activities = activities + (root(_activities=activities, _till=till),)",
+       'R', 'activities run twice')
+twin('C07', 'c07-twin-run-module-level-root', 'usim/__init__.py',
+     "    if till is not None:\n        async def root(_activities=activities, _till=till):\n            async with until(time == _till) as scope:\n                for activity in _activities:\n                    scope.do(activity)\n        activities = root(_activities=activities, _till=till),\n    loop = _Loop(*activities, start=start)",
+     "    async def root(acts, end):\n        async with until(time == end) as scope:\n            for activity in acts:\n                scope.do(activity)\n    if till is None:\n        initial = activities\n    else:\n        initial = (root(acts=activities, end=till),)\n    loop = _Loop(*initial, start=start)",
+     'root function with plain parameters, other local for the roots')
 mutant('C07', 'c07-delay-subscribe-at', TIMING,
        "        __USIM_STATE__.loop.schedule(waiter, interrupt, delay=self.duration)",
        "        __USIM_STATE__.loop.schedule(waiter, interrupt, at=self.duration)",
